@@ -606,6 +606,21 @@ def phi_history_check(I, init, window, intervals, t0):
     susp = {}
     hist = f"interval={I} bootstrap={init} window={window} heartbeats at t0={t0} then gaps {[m * I for m in intervals]}"
     for g in grid:
+        p = det.phi(g)
+        n += 1
+        vals.append(p)
+        if prev is not None and (p != p or p < prev - PHI_TOL):
+            return n, vals, ("PhiAccrualDetector/phi-decreased/no-heartbeat-between",
+                             f"interval={I} bootstrap={init} window={window} heartbeats at t0={t0} then gaps "
+                             f"{[m * I for m in intervals]}: phi({prev_t})={prev!r} but phi({g})={p!r} with no "
+                             f"heartbeat in between")
+        for thr, dd in ((8.0, det), (3.0, det3)):
+            a = dd.is_available(g)
+            if a and not avail[thr]:
+                return n, vals, ("PhiAccrualDetector/available-again/no-heartbeat-between",
+                                 f"interval={I} bootstrap={init} window={window} gaps {[m * I for m in intervals]}: "
+                                 f"is_available (threshold {thr}) turned True again at {g} with no heartbeat")
+            avail[thr] = a
         for thr, dd in ((8.0, det), (3.0, det3)):
             for reader, get in (("stats_at", lambda d: d.stats_at(g)), ("stats", lambda d: d.stats)):
                 try:
@@ -625,21 +640,6 @@ def phi_history_check(I, init, window, intervals, t0):
                                      f"with no heartbeat in between (current_phi={lvl!r})")
                 prev_r[k] = (g, lvl)
                 susp[k] = bool(sus)
-        p = det.phi(g)
-        n += 1
-        vals.append(p)
-        if prev is not None and (p != p or p < prev - PHI_TOL):
-            return n, vals, ("PhiAccrualDetector/phi-decreased/no-heartbeat-between",
-                             f"interval={I} bootstrap={init} window={window} heartbeats at t0={t0} then gaps "
-                             f"{[m * I for m in intervals]}: phi({prev_t})={prev!r} but phi({g})={p!r} with no "
-                             f"heartbeat in between")
-        for thr, dd in ((8.0, det), (3.0, det3)):
-            a = dd.is_available(g)
-            if a and not avail[thr]:
-                return n, vals, ("PhiAccrualDetector/available-again/no-heartbeat-between",
-                                 f"interval={I} bootstrap={init} window={window} gaps {[m * I for m in intervals]}: "
-                                 f"is_available (threshold {thr}) turned True again at {g} with no heartbeat")
-            avail[thr] = a
         prev, prev_t = p, g
     return n, vals, None
 
